@@ -419,3 +419,7 @@ Definition ex_d31 : list frag :=
   [mkF 0 0 100 110 [65]; mkF 1 1 50 60 [67]; mkF 2 1 100 110 [65]].
 
 Definition ids_of (r : list (list mol) * list mol * bool) : list (list Z) := map mol_ids (emitted mol r).
+
+(* a start-sorted library on one contig whose fragments are all shorter than cache_size = 40 but one is longer
+   than cache_size/2 (outside the inequality of the schedule theorems) *)
+Definition ex_gap : list frag := [mkF 0 0 100 110 [65]; mkF 1 0 105 136 [67]; mkF 2 0 106 110 [65]].
